@@ -106,6 +106,19 @@ Proof. exact meth_lookup. Qed.
 Theorem C45_no_rules_deny_all : forall cfg e rq, raw_rules cfg = [] -> ~ ref_allows cfg e rq.
 Proof. exact no_rules_deny. Qed.
 
+(* ===== composition with C44: the checklist machine on the same tree ===== *)
+
+(* The decision of C44's ACLChecklist machine (nonBlockingCheck, suspend/resume through breadcrumbs) on the Acl::Tree
+   of the configuration, every literal occurrence being a leaf that answers what the walk's literal answers and is
+   free to go asynchronous any number of times (sched), is ALLOWED iff the reference allows the request: which lookups
+   suspend, and how often, cannot change who is forwarded. *)
+Theorem C45_checklist_machine_decides_the_same : forall cfg e s rq sched,
+  Forall line_ok cfg -> req_ok e rq -> cfg_parse cfg = Some s ->
+  exists c a, AcltreeModel.run_check AcltreeModel.MNonBlocking (tree_of (c_rules s)) [] (scripts_of e s rq sched) = Some c /\
+    AcltreeModel.err c = false /\ AcltreeModel.cbk c = Some a /\
+    (AcltreeModel.acode a = AcltreeModel.Allowed <-> ref_allows cfg e rq).
+Proof. exact checklist_machine_agrees. Qed.
+
 (* ===== the hypotheses are satisfiable / examples ===== *)
 Example C45_ex_config_ok : Forall line_ok ex_cfg.
 Proof. exact ex_cfg_ok. Qed.
@@ -128,3 +141,4 @@ Print Assumptions C45_parsing_establishes_invariant.
 Print Assumptions C45_request_keeps_invariant_and_decides.
 Print Assumptions C45_method_list_reordering_harmless.
 Print Assumptions C45_no_rules_deny_all.
+Print Assumptions C45_checklist_machine_decides_the_same.
